@@ -111,24 +111,31 @@ func detExec(sql string, o detOpts, script func(e *Env)) detResult {
 	return r
 }
 
-func copyVal(v any) any {
+func copyVal(v any) any { return copyValDepth(v, 0) }
+
+// copyValDepth: deep copy; a structure deeper than 64 levels is cyclic for every purpose of the checks (a row
+// whose nested maps were made to contain the row itself by the code under test) and is cut with a marker.
+func copyValDepth(v any, depth int) any {
+	if depth > 64 {
+		return "<deeper than 64 levels: cyclic?>"
+	}
 	switch x := v.(type) {
 	case map[string]any:
 		m := make(map[string]any, len(x))
 		for k, vv := range x {
-			m[k] = copyVal(vv)
+			m[k] = copyValDepth(vv, depth+1)
 		}
 		return m
 	case []any:
 		s := make([]any, len(x))
 		for i, vv := range x {
-			s[i] = copyVal(vv)
+			s[i] = copyValDepth(vv, depth+1)
 		}
 		return s
 	case []map[string]any:
 		s := make([]map[string]any, len(x))
 		for i, vv := range x {
-			s[i] = copyVal(vv).(map[string]any)
+			s[i] = copyValDepth(vv, depth+1).(map[string]any)
 		}
 		return s
 	}
